@@ -311,11 +311,18 @@ class LogRecorder:
 
     def saveload(self, s, t, how=0):
         p = impl.tmpfile()
-        self.slots[s].save(p)
-        new = CLS[self.cf.kind].load(p) if how == 0 else impl.countmin.load(p)
-        os.unlink(p)
-        if type(new) is not CLS[self.cf.kind]:
-            raise AssertionError("load returned %r" % type(new))
+        try:
+            self.slots[s].save(p)
+            new = CLS[self.cf.kind].load(p) if how == 0 else impl.countmin.load(p)
+            if type(new) is not CLS[self.cf.kind]:
+                raise TypeError("load returned %r" % type(new))
+        except Exception as exc:
+            if impl.STRICT_PERSIST:
+                self.emit({"ev": "saveload_failed", "s": s + 1, "t": t + 1, "exc": repr(exc)[:200]})
+            return
+        finally:
+            if os.path.exists(p):
+                os.unlink(p)
         self.slots[t] = new
         self.emit({"ev": "saveload", "s": s + 1, "t": t + 1})
 
@@ -383,7 +390,8 @@ CONFIGS = [("log8", 2**32 - 1, 15), ("log16", 2**32 - 1, 1023), ("log8", 1000, 3
 def random_history(rng, focus=None, cfgs=None):
     kind, mc, nr = rng.choice(cfgs or CONFIGS)
     if focus == "ceiling":
-        kind, mc, nr = rng.choice([("log8", 300, 0), ("log8", 1000, 3), ("log8", 5000, 30)])
+        kind, mc, nr = rng.choice([("log8", 300, 0), ("log8", 1000, 3), ("log8", 5000, 30), ("log8", 1000, 15),
+                                   ("log8", 300, 40), ("log8", 2000, 100)])
     cf = LogConfig(kind, mc, nr)
     W = rng.choice([1, 1, 2, 2, 3, 4, 8, 16])
     D = rng.choice([1, 1, 2, 3, 4])
